@@ -5,6 +5,7 @@ Every error tree reachable from the E1 cell space is rendered; an independent wa
 from __future__ import annotations
 
 import hashlib
+import re as _re
 import json
 import os
 import subprocess
@@ -184,6 +185,10 @@ def judge(ctx, ast, sp, T, vi, v):
         core.add_violation(res, {'kind': 'tree_vs_error_text', 'root': root},
                            f"{desc}: str(error) != str(error.tree)", e1.cell_desc(ast, sp, vi, v), cost)
     problem = completeness(err.tree, text, v)
+    if not problem and e1.leaves_of(ast) & {'cond:raises', 'cond:or_raises'} and _re.search(r"condition '[^'\n]*boom", text) and 'predicate exploded' not in text:
+        # model side: whenever the condition named 'boom' is reported as failed, its predicate raised - the message must say so
+        problem = "the condition 'boom' failed because its predicate raised, but the exception's message (predicate exploded) is missing"
+
     if not problem and isinstance(ast, str) and ast in grammar.DC_SPECS and values.kind(v) == 'map' \
             and 'struct' in grammar.DC_SPECS[ast].get('opts', {}).get('in_format', ['struct']):
         # model-side completeness: names the reference field table says are missing / unexpected / duplicated
